@@ -33,6 +33,7 @@ import (
 	"math/rand"
 	"net"
 	"os"
+	"runtime"
 	"sort"
 	"strings"
 	"sync"
@@ -151,9 +152,43 @@ type hookEvent struct {
 }
 
 type groupHooks struct {
-	mu     sync.Mutex
-	events []hookEvent
-	delay  map[string]time.Duration // point/node/incoming -> delay
+	mu      sync.Mutex
+	events  []hookEvent
+	delay   map[string]time.Duration // point/node/incoming -> delay
+	nodes   []*node
+	pending map[uint64]map[int]bool // goroutine -> peer idx -> cached just before the cache-state read
+	reads   []readProbe
+}
+
+// readProbe brackets the cache-state read of one negotiation (it happens between the
+// reuse.identified and the reuse.cachesent hook, on one goroutine): was a connection to peer
+// p cached just before and just after it. Equal answers tell what the negotiation announced
+// (FRESH / CACHED) for that peer; different answers leave it open.
+type readProbe struct {
+	Node     int
+	Incoming bool
+	Before   map[int]bool
+	After    map[int]bool
+}
+
+func goid() uint64 {
+	var buf [64]byte
+	n := runtime.Stack(buf[:], false)
+	var id uint64
+	fmt.Sscanf(string(buf[:n]), "goroutine %d ", &id)
+	return id
+}
+
+func (g *groupHooks) probe(self int) map[int]bool {
+	m := map[int]bool{}
+	for _, y := range g.nodes {
+		if y.idx == self {
+			continue
+		}
+		_, ok := g.nodes[self].tr.VerifCached(y.id)
+		m[y.idx] = ok
+	}
+	return m
 }
 
 var (
@@ -171,12 +206,30 @@ func hook(point, self string, incoming bool) {
 	if e == nil {
 		return
 	}
+	if point == "reuse.cachesent" {
+		// right after the read (and the send of what was read)
+		after := e.g.probe(e.idx)
+		id := goid()
+		e.g.mu.Lock()
+		if before, ok := e.g.pending[id]; ok {
+			delete(e.g.pending, id)
+			e.g.reads = append(e.g.reads, readProbe{e.idx, incoming, before, after})
+		}
+		e.g.mu.Unlock()
+	}
 	e.g.mu.Lock()
 	e.g.events = append(e.g.events, hookEvent{point, e.idx, incoming})
 	d := e.g.delay[fmt.Sprintf("%s/%d/%v", point, e.idx, incoming)]
 	e.g.mu.Unlock()
 	if d > 0 {
 		time.Sleep(d)
+	}
+	if point == "reuse.identified" {
+		// right before the read
+		before := e.g.probe(e.idx)
+		e.g.mu.Lock()
+		e.g.pending[goid()] = before
+		e.g.mu.Unlock()
 	}
 	if point == "reuse.decide" {
 		// the decision (and a possible store into the cache) happens after this hook returns
@@ -186,35 +239,52 @@ func hook(point, self string, incoming bool) {
 	}
 }
 
-// allFreshCross reports that on every node all cache-state reads of the round (a read
-// precedes the reuse.cachesent hook) happened before any negotiation of that node was
-// released from its reuse.decide hook (a store into the node's cache can only follow that):
-// no read can have seen a connection stored in this round, so all four negotiations of a
-// simultaneous open announced FRESH.
-func allFreshCross(events []hookEvent) bool {
-	firstGo := map[int]int{}
-	lastRead := map[int]int{}
-	reads := 0
-	for i, e := range events {
-		switch e.Point {
-		case "reuse.go":
-			if _, ok := firstGo[e.Node]; !ok {
-				firstGo[e.Node] = i
-			}
-		case "reuse.cachesent":
-			lastRead[e.Node] = i
-			reads++
+// announced classifies what the negotiations between nodes a and b announced in this round:
+// "all-fresh": every negotiation on a and on b that could be one between the two read "not
+// cached" for the other (at least an incoming and an outgoing one on each side);
+// "some-cached": attributable (2-node group) and at least one read "cached" for certain;
+// "open": a read raced with a store, or the group has a third node and the reads cannot be
+// attributed to the pair.
+func announced(reads []readProbe, a, b, size int) string {
+	type dirs struct{ in, out bool }
+	seen := map[int]*dirs{a: {}, b: {}}
+	allFresh, someCached, open := true, false, false
+	for _, rp := range reads {
+		var peer int
+		switch rp.Node {
+		case a:
+			peer = b
+		case b:
+			peer = a
+		default:
+			continue
+		}
+		if rp.Incoming {
+			seen[rp.Node].in = true
+		} else {
+			seen[rp.Node].out = true
+		}
+		bf, af := rp.Before[peer], rp.After[peer]
+		switch {
+		case !bf && !af:
+		case bf && af:
+			allFresh = false
+			someCached = true
+		default:
+			allFresh = false
+			open = true
 		}
 	}
-	if reads < 4 {
-		return false
+	complete := seen[a].in && seen[a].out && seen[b].in && seen[b].out
+	switch {
+	case allFresh && complete:
+		return "all-fresh"
+	case size == 2 && someCached && !open:
+		return "some-cached"
+	case size == 2 && !open && !complete:
+		return "incomplete"
 	}
-	for n, lr := range lastRead {
-		if fg, ok := firstGo[n]; ok && fg < lr {
-			return false
-		}
-	}
-	return true
+	return "open"
 }
 
 // ---------------------------------------------------------------- observation
@@ -430,7 +500,7 @@ func runGroup(r *ev.Run, gi, size, rounds int, tlsConf *tls.Config, samples *sam
 	name := fmt.Sprintf("group%d", gi)
 	rng := r.Rand(name)
 	var nodes []*node
-	g := &groupHooks{delay: map[string]time.Duration{}}
+	g := &groupHooks{delay: map[string]time.Duration{}, pending: map[uint64]map[int]bool{}}
 	for i := 0; i < size; i++ {
 		n, err := newNode(ctx, i, tlsConf)
 		if err != nil {
@@ -491,6 +561,8 @@ func runGroup(r *ev.Run, gi, size, rounds int, tlsConf *tls.Config, samples *sam
 		}
 		g.mu.Lock()
 		g.events = nil
+		g.reads = nil
+		g.nodes = nodes
 		g.delay = map[string]time.Duration{}
 		for k, v := range plan.Delays {
 			g.delay[k] = time.Duration(v) * time.Millisecond
@@ -532,6 +604,7 @@ func runGroup(r *ev.Run, gi, size, rounds int, tlsConf *tls.Config, samples *sam
 		// --- quiescence + monitors
 		g.mu.Lock()
 		events := append([]hookEvent(nil), g.events...)
+		reads := append([]readProbe(nil), g.reads...)
 		g.mu.Unlock()
 		var order []string
 		for _, e := range events {
@@ -542,7 +615,7 @@ func runGroup(r *ev.Run, gi, size, rounds int, tlsConf *tls.Config, samples *sam
 			order = append(order, fmt.Sprintf("%s%d%s", short[e.Point], e.Node, d))
 		}
 		witness := func(extra any) any {
-			return map[string]any{"plan": plan, "hook_order": order, "state_before": fmtStates(before), "dials": results, "detail": extra}
+			return map[string]any{"plan": plan, "hook_order": order, "cache_reads": reads, "state_before": fmtStates(before), "dials": results, "detail": extra}
 		}
 		after := map[string]pairState{}
 		bad := false
@@ -598,16 +671,18 @@ func runGroup(r *ev.Run, gi, size, rounds int, tlsConf *tls.Config, samples *sam
 				} else {
 					bad = true
 					key := "returned-connection-closed:" + stateClass(before[k])
-					if stateClass(before[k]) == "both-fresh" && crossDial(plan.Dials, res.From, res.To) && allFreshCross(events) {
-						// the simultaneous open in which all four negotiations announce FRESH
-						key = "all-fresh-cross:returned-connection-closed"
-					}
-					if size > 2 && key == "returned-connection-closed:both-fresh" {
-						// hook events carry no peer address: in a 3-node group the reads and stores
-						// of the other pairs hide whether this pair went through the all-FRESH cross
-						r.Count("dontcare_unattributable_dead_stream_in_3_node_group", 1)
-						res.conn.Close()
-						continue
+					if stateClass(before[k]) == "both-fresh" && crossDial(plan.Dials, res.From, res.To) {
+						switch announced(reads, res.From, res.To, size) {
+						case "all-fresh":
+							// the simultaneous open in which all negotiations of the pair announce FRESH
+							key = "all-fresh-cross:returned-connection-closed"
+						case "open":
+							// a read raced with a store, or (3-node group) the reads cannot be
+							// attributed to this pair: the scenario cannot be named, so no verdict
+							r.Count("dontcare_dead_stream_unattributable_negotiation_state", 1)
+							res.conn.Close()
+							continue
+						}
 					}
 					noteKey(r, key)
 					if key != "all-fresh-cross:returned-connection-closed" {
@@ -636,7 +711,7 @@ func runGroup(r *ev.Run, gi, size, rounds int, tlsConf *tls.Config, samples *sam
 				r.Count("pair_rounds_ending_with_empty_caches", 1)
 			}
 		}
-		samples.add(map[string]any{"round": cname, "plan": plan, "hook_order": order, "state_before": fmtStates(before), "state_after": fmtStates(after), "dials": results})
+		samples.add(map[string]any{"round": cname, "plan": plan, "hook_order": order, "cache_reads": reads, "state_before": fmtStates(before), "state_after": fmtStates(after), "dials": results})
 		_ = bad
 	}
 }
